@@ -224,7 +224,10 @@ func (s *Server) Session(i device.ID) *Session {
 	}
 	s.lock.RLock()
 	v := s.sessions[i.Hash()]
-	s.lock.RUnlock()
+	if s.lock.RUnlock(); v == nil || v.ID != i {
+		// The table is keyed by the 32bit hash, another ID can share it.
+		return nil
+	}
 	return v
 }
 
